@@ -174,7 +174,7 @@ pub fn generate(tier: &str, seed: u64, shard: u64, nshards: u64, path: &str) -> 
                 let cb = cuts(&mut rng, pb, stream.len(), &ends);
                 let a = run_deser(&stream, &ca);
                 let b = run_deser(&stream, &cb);
-                t.emit(&json!({"ev":"Pair","kind":"deser","mutated":mutated,"stream":segs(&stream),"pa":format!("{:?}", pa),"pb":format!("{:?}", pb),"a":a,"b":b}));
+                t.emit(&json!({"ev":"Pair","kind":"deser","mutated":mutated,"stream":segs(&stream),"pa":format!("{:?}", pa),"pb":format!("{:?}", pb),"ca":ca,"cb":cb,"a":a,"b":b}));
             }
             _ => {
                 let server = kind == "server";
@@ -186,11 +186,43 @@ pub fn generate(tier: &str, seed: u64, shard: u64, nshards: u64, path: &str) -> 
                 let ca = cuts(&mut rng, pa, stream.len(), &[]);
                 let cb = cuts(&mut rng, if matches!(pb, Part::PerPacket) { Part::Random } else { pb }, stream.len(), &[]);
                 let (a, b) = if server { (run_server(state, &stream, &ca), run_server(state, &stream, &cb)) } else { (run_client(state, &stream, &ca), run_client(state, &stream, &cb)) };
-                t.emit(&json!({"ev":"Pair","kind":kind,"state":state,"mutated":mutated,"stream":segs(&stream),"pa":format!("{:?}", pa),"pb":format!("{:?}", pb),"a":a,"b":b}));
+                t.emit(&json!({"ev":"Pair","kind":kind,"state":state,"mutated":mutated,"stream":segs(&stream),"pa":format!("{:?}", pa),"pb":format!("{:?}", pb),"ca":ca,"cb":cb,"a":a,"b":b}));
             }
         }
         runs += 1;
     }
     t.flush();
     json!({"kind":"pair","runs":runs,"lines":t.line,"path":path})
+}
+
+/// debugging aid: re-run one logged server/client pair member and print every call's results
+pub fn debug(file: &str, line: usize, which: &str) {
+    let text = std::fs::read_to_string(file).unwrap();
+    let e: Value = serde_json::from_str(text.lines().nth(line - 1).unwrap()).unwrap();
+    let mut stream: Vec<u8> = Vec::new();
+    for seg in e["stream"].as_array().unwrap() {
+        if let Some(l) = seg.get("l") { for x in l.as_array().unwrap() { stream.push(x.as_u64().unwrap() as u8); } }
+        if let Some(r) = seg.get("r") { let v = r[0].as_u64().unwrap() as u8; for _ in 0..r[1].as_u64().unwrap() { stream.push(v); } }
+    }
+    let cuts: Vec<usize> = e[which].as_array().unwrap().iter().map(|x| x.as_u64().unwrap() as usize).collect();
+    let state = e["state"].as_u64().unwrap_or(0);
+    rml_rtmp::verif::set_clock(Some(5));
+    let (mut srv, mut peer) = crate::res::server_in_state(state as usize).expect("pre");
+    let mut pos = 0;
+    for n in cuts {
+        let r = srv.handle_input(&stream[pos..pos + n]);
+        println!("call {}..{} -> {}", pos, pos + n, match &r { Ok(rs) => format!("ok {} results", rs.len()), Err(e) => format!("err {:?}", e) });
+        pos += n;
+        if let Ok(rs) = r {
+            for x in rs.iter() {
+                match x {
+                    rml_rtmp::sessions::ServerSessionResult::OutboundResponse(p) => {
+                        let d = peer.decode(p);
+                        println!("   packet {:?} -> {}", &p.bytes[..p.bytes.len().min(24)], d.iter().map(|v| format!("{}:{}", v["ty"], v["msg"]["k"])).collect::<Vec<_>>().join(","));
+                    }
+                    other => println!("   {:?}", format!("{:?}", other).chars().take(100).collect::<String>()),
+                }
+            }
+        }
+    }
 }
